@@ -6,4 +6,12 @@
 EXTENDS Naturals, Sequences
 
 KF(e, clause) == ""
+
+\* C05: JSON keys are derived from the *Python* field name (snake_case of the proto name, then lowerCamel).  For a proto
+\* field name with adjacent capitals (HTTPStatus -> http_status -> "httpStatus") this is not protoc's json_name
+\* ("HTTPStatus"), so the reference does not find the field.  Input: a message type with such a field holding a value.
+IsCap(c) == c >= 65 /\ c <= 90
+HasAdjacentCapitals(ncp) == \E k \in 1..(Len(ncp) - 1) : IsCap(ncp[k]) /\ IsCap(ncp[k + 1])
+KF_C05_AcronymFieldName(fields, val) ==
+  \E j \in DOMAIN fields : HasAdjacentCapitals(fields[j].ncp) /\ val[fields[j].name].k # "unset"
 =============================================================================
